@@ -262,6 +262,12 @@ func runC15(c *ctx, r *Report) error {
 			ref[i].Filepath = filepath.Join(root, ref[i].Filepath)
 		}
 	}
+	if perr == nil && len(ref) >= 6 && st0 != 1 {
+		// the property's last sentence on the plainest run there is: diagnostics were printed, the status says none remain
+		r.finding("exit-status", fmt.Sprintf("the unfiltered run printed %d diagnostics and exited with status %d (1 expected)", len(ref), st0),
+			Case{Op: "main", Input: map[string]string{"args": strings.Join(append(append([]string{}, base...), absFiles...), " ")}, Note: truncate(out0, 600)})
+		return nil
+	}
 	if perr != nil || st0 != 1 || len(ref) < 6 {
 		return fmt.Errorf("C15: reference run unusable: status %d, %d diags, %v %s", st0, len(ref), perr, err0)
 	}
